@@ -16,7 +16,7 @@ RULE = ("Generated: a delegation history with signature support (C11 generator),
         "omit-from-keys flag together with their value (the flag concerns key derivation only: signing and verification must use every "
         "listed value), a hidden slot of the key set, each signature component shifted "
         "by a generator, verification through the precomputed form, signing through sign_precomputed with and without the list. "
-        "Oracle: verify <=> (list, message mod r) equal the signed ones (absent = 0, values mod r); direct and precomputed forms agree. "
+        "Oracle: verify <=> (list, message mod r) equal the signed ones (absent = 0, values mod r); direct and precomputed forms agree; signature.a1 == key.a1 * g^s for the exponent s drawn from the stream. "
         "Non-trivial = any perturbation, or an extension that fills a free slot lying behind two or more fixed entries.")
 ASSUMPTIONS = c11.ASSUMPTIONS + ["signatures are only specified for parameters created with signature support", "negative expectations hold up to a 2^-255 coincidence"]
 
